@@ -17,13 +17,24 @@ Definition directive_of_part (part : bytes) : option (bytes * bytes) :=
   let k := lower (tp_trim k0) in
   match k with [] => None | _ => Some (k, v) end.
 
-(* maps.Collect: a later binding of the same key overwrites an earlier one *)
+(* parseDirectives: a later binding of the same key overwrites an earlier one — except no-cache (RFC 9111 §5.2.2.4), whose
+   occurrences add up: unqualified as soon as one occurrence is, otherwise the field names of all of them.  The combined
+   argument is kept unquoted (the accessor reads it with ParseQuotedString again, which leaves what is not a
+   quoted-string as it is). *)
+Definition no_cache_name : bytes := bs "no-cache".
+Definition merge_args (a b : bytes) : bytes := if beq a [] || beq b [] then [] else a ++ [44] ++ b.
+Definition merge_no_cache (prev v : bytes) : bytes := merge_args (parse_quoted_string prev) (parse_quoted_string v).
+Definition combine_directive (k : bytes) (prev : option bytes) (v : bytes) : bytes :=
+  match prev with
+  | Some p => if beq k no_cache_name then merge_no_cache p v else v
+  | None => v
+  end.
 Fixpoint collect (parts : list bytes) (m : directives) : directives :=
   match parts with
   | [] => m
   | p :: r =>
       match directive_of_part p with
-      | Some (k, v) => collect r (aset k v m)
+      | Some (k, v) => collect r (aset k (combine_directive k (alookup k m) v) m)
       | None => collect r m
       end
   end.
